@@ -1,0 +1,124 @@
+//go:build verif
+
+package concurrent
+
+// Bounded stand-ins for C19 on two schedule-dependent defects found by reviewing the unchanged package (recorded
+// findings; contracts over one goroutine cannot express them): (1) Promise.Wait takes the message off the one-slot
+// channel and puts it back without the mutex, so a Fulfill scheduled in between sees an unset promise; (2) on Map's
+// error path a worker may close the result channel while another worker still sends on it, which kills the
+// process, so that probe runs in a child process (this test binary re-executed).
+
+import (
+	"bytes"
+	"errors"
+	"fmt"
+	"os"
+	"os/exec"
+	"strings"
+	"sync"
+	"sync/atomic"
+	"testing"
+	"time"
+)
+
+var verifErrNegative = errors.New("negative element")
+
+type verifFailSet []int
+
+func (c verifFailSet) Slice(i, j int) Mapper { return c[i:j] }
+func (c verifFailSet) Len() int              { return len(c) }
+func (c verifFailSet) Operation() (interface{}, error) {
+	sum := 0
+	for _, v := range c {
+		if v < 0 {
+			return nil, verifErrNegative
+		}
+		sum += v
+	}
+	return sum, nil
+}
+
+func TestVerifBounded_C19_Races(t *testing.T) {
+	if os.Getenv("VERIF_C19_MAP_CHILD") == "1" {
+		var wg sync.WaitGroup
+		for g := 0; g < 32; g++ {
+			wg.Add(1)
+			go func() {
+				defer wg.Done()
+				for i := 0; i < 300; i++ {
+					c := make(verifFailSet, 16)
+					c[2] = -1
+					if _, err := Map(c, 4, 1); err == nil {
+						fmt.Println("CHILD no error")
+						os.Exit(3)
+					}
+				}
+			}()
+		}
+		wg.Wait()
+		fmt.Println("CHILD done")
+		return
+	}
+	budget := 1500 * time.Millisecond
+	if os.Getenv("VERIF_TIER") == "thorough" {
+		budget = 10 * time.Second
+	}
+	cases := 0
+
+	// (1) an immutable, fulfilled promise against looping waiters: every further Fulfill must be rejected
+	{
+		p := NewPromise(false, false, false)
+		if err := p.Fulfill("first"); err != nil {
+			t.Fatalf("first Fulfill: %v", err)
+		}
+		var stop int32
+		for w := 0; w < 4; w++ {
+			go func() {
+				for atomic.LoadInt32(&stop) == 0 {
+					<-p.Wait() // may block for good once the race has been hit; the goroutine is abandoned
+				}
+			}()
+		}
+		deadline := time.Now().Add(budget)
+		accepted := 0
+		for time.Now().Before(deadline) && accepted == 0 {
+			cases++
+			if err := p.Fulfill("second"); err == nil {
+				accepted = cases
+			}
+		}
+		atomic.StoreInt32(&stop, 1)
+		if accepted > 0 {
+			fmt.Printf("FINDING id=promise-second-fulfill cases=1 example=%q\n", "immutable promise fulfilled with \"first\", 4 goroutines looping on Wait: a later Fulfill(\"second\") returned nil (Wait had the message off the channel at that moment)")
+		}
+	}
+
+	// (2) Map whose third chunk fails, from 32 goroutines at once, in a child process
+	{
+		deadline := time.Now().Add(budget)
+		crashed := ""
+		for attempt := 0; attempt < 20 && time.Now().Before(deadline) && crashed == ""; attempt++ {
+			cases++
+			cmd := exec.Command(os.Args[0], "-test.run", "^TestVerifBounded_C19_Races$")
+			cmd.Env = append(os.Environ(), "VERIF_C19_MAP_CHILD=1")
+			var buf bytes.Buffer
+			cmd.Stdout, cmd.Stderr = &buf, &buf
+			if err := cmd.Run(); err != nil {
+				out := buf.String()
+				switch {
+				case strings.Contains(out, "send on closed channel"):
+					crashed = "panic: send on closed channel"
+				default:
+					if len(out) > 1500 {
+						out = out[:1500]
+					}
+					t.Fatalf("Map child: %v\n%s", err, out)
+				}
+			}
+		}
+		if crashed != "" {
+			fmt.Printf("FINDING id=map-error-path-crash cases=1 example=%q\n", "32 goroutines each calling Map(16 one-element chunks of which the third fails, 4 threads, chunk size 1): the process dies with "+crashed+" (a worker closes the result channel while a late worker still sends)")
+		}
+	}
+	fmt.Printf("BOUNDED name=C19.races cases=%d nontrivial=%d exhaustive=false domain=%q\n", cases, cases, fmt.Sprintf("schedule sampling for %v each: repeated Fulfill on a fulfilled immutable promise against 4 looping waiters; child processes running 32 x 300 failing Map calls", budget))
+}
